@@ -262,10 +262,39 @@ theorem substBody_mem' (m : Macro) : ∀ body : List Tok, (∀ t ∈ body, t.kin
 theorem mkHp_nonident (ms0 : List Macro) (hs : List Name) (t : Tok) (h : t.kind ≠ .TIDENT) : mkHp ms0 hs t = mkH hs t := by
   simp [mkHp, mkH, isMac, h]
 
+theorem uses_lt (ps : List Param) : ∀ (body : List Tok) (i : Nat) (b : Bool), (i, b) ∈ uses ps body → i < ps.length
+  | [], i, b, h => by simp [uses] at h
+  | [t], i, b, h => by
+    unfold uses at h
+    split at h
+    · split at h
+      · rename_i j hj
+        simp only [List.mem_singleton, Prod.mk.injEq] at h
+        rw [h.1]; exact macroparam_lt hj
+      · cases h
+    · cases h
+  | t :: u :: r, i, b, h => by
+    rw [uses] at h
+    split at h
+    · split at h
+      · rename_i j hj
+        rcases List.mem_cons.mp h with h | h
+        · simp only [Prod.mk.injEq] at h; rw [h.1]; exact macroparam_lt hj
+        · exact uses_lt ps r i b h
+      · exact uses_lt ps (u :: r) i b h
+    · split at h
+      · split at h
+        · rename_i j hj
+          rcases List.mem_cons.mp h with h | h
+          · simp only [Prod.mk.injEq] at h; rw [h.1]; exact macroparam_lt hj
+          · exact uses_lt ps (u :: r) i b h
+        · exact uses_lt ps (u :: r) i b h
+      · exact uses_lt ps (u :: r) i b h
+
 /-- **`expand` on an invocation in the text** whose arguments may name object-like macros and hold
 complete invocations, against one step of the reference, for every continuation `X`: the
 inductive step (the statement for less fuel is what the argument loop needs for nested invocations) -/
-theorem callSpec_step (ms0 : List Macro) (hTb : TblOK ms0) (n : Nat) (hcs : ∀ m, m < n → CallSpec ms0 m) :
+theorem callSpec_step (ms0 : List Macro) (hTb : TblOKS ms0) (n : Nat) (hcs : ∀ m, m < n → CallSpec ms0 m) :
     CallSpec ms0 n := by
   intro s1 s2 T lp r' F args rest g hctx hraw h1 h2 h3 h4 h5 h5' h6 h7ok h8 h
   have h7 : ∀ x ∈ r'.take (r'.length - rest.length), RawOK x := h7ok.raw
@@ -273,7 +302,7 @@ theorem callSpec_step (ms0 : List Macro) (hTb : TblOK ms0) (n : Nat) (hcs : ∀ 
   have hsf0 := hTb.func F hmem0.1 h4
   obtain ⟨F', hF', hs⟩ := macroget_stat_some g.stat.symm h3
   have hse := stat_eq hs
-  have hsf : SimpleFun F' := simpleFun_of_stat hs hsf0
+  have hsf : SimpleFunS F' := simpleFunS_of_stat hs hsf0
   have hbne0 : F.body ≠ [] := hTb.bodyNe F hmem0.1
   have hbne : F'.body ≠ [] := by rw [hse.2.2.2]; exact hbne0
   have hcol : collect F'.params 0 0 [] [] r' = .ok (args, rest) := by rw [hse.2.2.1]; exact h6
@@ -307,36 +336,75 @@ theorem callSpec_step (ms0 : List Macro) (hTb : TblOK ms0) (n : Nat) (hcs : ∀ 
   have hg2 : macroget s2.macros F.name = some { FL with args := ARGS, hide := true } := by
     rw [hmac2, macroget_setHide, macroget_setArgs, hname, hFL]
     simp [hseL.1, hname]
-  have hnh : ∀ t ∈ respace F.body T.space, t.kind ≠ .THASH := by
-    intro t ht
-    obtain ⟨b, hb, hkb⟩ := mem_respace_kh ht
-    have : t.kind = b.kind := congrArg (·.1) hkb
-    rw [this]; exact hsf0.nohash b hb
+  have hHF : HashFollowed ({ FL with args := ARGS, hide := true } : Macro).params F.body := by
+    show HashFollowed FL.params F.body
+    rw [hseL.2.2.1]; exact hsf0.hashF
+  have huse : uses ({ FL with args := ARGS, hide := true } : Macro).params F.body = uses F.params F.body := by
+    show uses FL.params F.body = _
+    rw [hseL.2.2.1]
   have hfr : frameToks s2.macros ⟨respace F.body T.space, some F.name⟩ =
       substBody { FL with args := ARGS, hide := true } (respace F.body T.space) := by
     unfold frameToks
     simp only [Option.bind_some, hg2]
     exact if_pos (by rw [hseL.2.1]; exact h4)
-  have hargs_i : ∀ t ∈ F.body, ∀ i, macroparam F.params t = some i →
+  have huse_lt : ∀ (i : Nat) (b : Bool), (i, b) ∈ uses F.params F.body → i < F.params.length := by
+    intro i b hi
+    exact uses_lt F.params F.body i b hi
+  have hargs_i : ∀ i, (i, false) ∈ uses F.params F.body →
       LinkE (tblF ms0) ((args.getD i []).map (iP ms0)) ((ARGS.getD i default).toks.map (mkHp ms0 [])) [] ∧
       (ARGS.getD i default).toks ≠ [] ∧ ∀ x ∈ (ARGS.getD i default).toks, FlatP ms0 x := by
-    intro t ht i hi
-    have hilt : i < F.params.length := macroparam_lt hi
-    exact hrel.get i (by omega) (hsf0.ftok t ht i hi)
-  have hcond : ∀ t ∈ F.body, ∀ i, macroparam ({ FL with args := ARGS, hide := true } : Macro).params t = some i →
+    intro i hi
+    have hilt := huse_lt i false hi
+    exact (hrel.get i (by omega)).1 (hsf0.ftok i hi)
+  have hstr_i : ∀ i, (i, true) ∈ uses F.params F.body →
+      (ARGS.getD i default).str = strTok (stringizeAll (args.getD i [])) := by
+    intro i hi
+    have hilt := huse_lt i true hi
+    exact (hrel.get i (by omega)).2 (hsf0.fstr i hi)
+  have hspell : ∀ a ∈ args, ∀ x ∈ a, Spellable x := by
+    intro a ha x hx
+    rcases collect_mem_take F.params r' 0 0 [] [] args rest h6 a ha x hx with h' | h' | ⟨d, hd, _⟩
+    · exact h7ok.spell x h'
+    · cases h'
+    · cases hd
+  have hcondP : ∀ i, (i, false) ∈ uses ({ FL with args := ARGS, hide := true } : Macro).params F.body →
       ((({ FL with args := ARGS, hide := true } : Macro).args.getD i default).toks).map (mkHp ms0 []) =
         (fun i => (ARGS.getD i default).toks.map (mkHp ms0 [])) i ∧
       (({ FL with args := ARGS, hide := true } : Macro).args.getD i default).toks ≠ [] := by
-    intro t ht i hi
-    have hi' : macroparam F.params t = some i := by rw [← hseL.2.2.1]; exact hi
-    exact ⟨rfl, (hargs_i t ht i hi').2.1⟩
+    intro i hi
+    rw [huse] at hi
+    exact ⟨rfl, (hargs_i i hi).2.1⟩
+  have hcondS : ∀ i, (i, true) ∈ uses ({ FL with args := ARGS, hide := true } : Macro).params F.body → ∀ sp,
+      mkHp ms0 [] { (({ FL with args := ARGS, hide := true } : Macro).args.getD i default).str with space := sp } =
+        ⟨{ MacroRef.stringizeRef (((fun i => (splitTop (seg.length + 1) 0 (seg.map hT) []).getD i []) i).map (·.tok))
+            with space := sp || false }, [], false⟩ := by
+    intro i hi sp
+    rw [huse] at hi
+    have hilt := huse_lt i true hi
+    have hila : i < args.length := by omega
+    show mkHp ms0 [] { (ARGS.getD i default).str with space := sp } = _
+    rw [hstr_i i hi, hA]
+    have hget : (args.map (·.map hT)).getD i [] = (args.getD i []).map hT := by
+      simp [List.getD_eq_getElem?_getD, hila]
+    have hmemA : args.getD i [] ∈ args := by
+      have : args.getD i [] = args[i] := by simp [List.getD_eq_getElem?_getD, hila]
+      rw [this]; exact List.getElem_mem hila
+    have hseq := stringizeAll_eq (args.getD i []) (hspell _ hmemA)
+    simp only [hget, List.map_map]
+    have hmp : ((args.getD i []).map ((fun x : HTok => x.tok) ∘ hT)) = (args.getD i []).map toP := by
+      apply List.map_congr_left; intro x _; rfl
+    rw [hmp]
+    unfold MacroRef.stringizeRef at hseq ⊢
+    simp only [Option.some.injEq] at hseq
+    generalize args.getD i [] = ai at hseq ⊢
+    simp [mkHp, strTok, toP, isMac, hseq]
   have hbhide : ∀ t ∈ F.body, t.hide = false := fun t ht => (hTb.bodyOk F hmem0.1 t ht).1.2.2
-  have hsub := substBody_exactP ms0 { FL with args := ARGS, hide := true } (toDefF F) h4
+  have hsub := substBody_exactS ms0 { FL with args := ARGS, hide := true } (toDefF F) h4
     (fun t => by rw [paramIndex_toDefF]; show _ = macroparam FL.params t; rw [hseL.2.2.1])
     (fun i => (splitTop (seg.length + 1) 0 (seg.map hT) []).getD i [])
-    (fun i => (ARGS.getD i default).toks.map (mkHp ms0 [])) F.body ⟨hsf0.nohash, hbhide, hcond⟩
+    (fun i => (ARGS.getD i default).toks.map (mkHp ms0 [])) F.body.length F.body (Nat.le_refl _) hHF hbhide hcondP hcondS
   have hne : substBody { FL with args := ARGS, hide := true } F.body ≠ [] :=
-    substBody_ne_nil _ F.body hbne0 hsf0.nohash (fun t ht i hi => (hcond t ht i hi).2)
+    substBody_ne_nilS _ F.body hbne0 hHF (fun i hi => (hcondP i hi).2)
   have hb : (toDefF F).body = F.body.map toP := rfl
   have hexact : (flat s2.macros s2.ctx).map (mkHp ms0 [F.name]) =
       (MacroRef.respace (hsadd [F.name]
@@ -345,7 +413,7 @@ theorem callSpec_step (ms0 : List Macro) (hTb : TblOK ms0) (n : Nat) (hcs : ∀ 
                (elems (toDefF F) (toDefF F).body) false)) T.space).1 := by
     rw [hctx2]
     simp only [flat, hfr, List.append_nil]
-    rw [substBody_respace_exact _ F.body T.space hsf0.nohash (fun t ht i hi => (hcond t ht i hi).2), map_mkHp_respace,
+    rw [substBody_respace_exactS _ F.body T.space hHF (fun i hi => (hcondP i hi).2), map_mkHp_respace,
       ← hsadd_mkHp, hsub, hb]
   have hsne : subst (fun i => (splitTop (seg.length + 1) 0 (seg.map hT) []).getD i [])
                (fun i => (ARGS.getD i default).toks.map (mkHp ms0 []))
@@ -379,23 +447,21 @@ theorem callSpec_step (ms0 : List Macro) (hTb : TblOK ms0) (n : Nat) (hcs : ∀ 
       subst hf
       simp only [Option.bind_some, hg2, Option.some.injEq] at hb'
       subst hb'
-      exact hashFollowed_of_nohash _ _ hnh
+      exact hashFollowed_respace _ hHF
     · intro x hx
       rw [hctx2] at hx
       simp only [flat, List.append_nil, hfr] at hx
-      rcases substBody_mem' _ _ hnh x hx with ⟨b, hb', hkb⟩ | ⟨i, ⟨b, hb', hbi⟩, a, ha, hka⟩
+      rcases substBody_memS _ _ _ (Nat.le_refl _) (hashFollowed_respace T.space hHF) x hx with
+        ⟨b, hb', hkb⟩ | ⟨i, hi, a, ha, hka⟩ | ⟨i, hi, hk1, hk2, hk3⟩
       · obtain ⟨b', hb'', hkb'⟩ := mem_respace_kh hb'
         have hbo := hTb.bodyOk F hmem0.1 b' hb''
         exact flatP_of_kh (hkb.trans hkb') ⟨hbo.1.1, hbo.1.2.1, hbo.2⟩
-      · obtain ⟨b', hb'', hkb'⟩ := mem_respace_kh hb'
-        have hmp' : macroparam F.params b' = some i := by
-          have hbi' : macroparam FL.params b = some i := hbi
-          rw [hseL.2.2.1] at hbi'
-          have e1 : b.kind = b'.kind := congrArg (·.1) hkb'
-          have e2 : b.lit = b'.lit := congrArg (·.2.1) hkb'
-          unfold macroparam at hbi' ⊢
-          rw [← e1, ← e2]; exact hbi'
-        exact flatP_of_kh hka ((hargs_i b' hb'' i hmp').2.2 a ha)
+      · rw [uses_respace, huse] at hi
+        exact flatP_of_kh hka ((hargs_i i hi).2.2 a ha)
+      · rw [uses_respace, huse] at hi
+        have hsk : x.kind = .TSTRINGLIT := by
+          rw [hk1]; show (ARGS.getD i default).str.kind = _; rw [hstr_i i hi]; rfl
+        exact ⟨by rw [hsk]; decide, by rw [hsk]; decide, fun hf => by have := hf.1; rw [hsk] at this; cases this⟩
     · intro L hL
       rw [hctx2] at hL
       simp only [flatG, List.append_nil, List.mem_map] at hL
@@ -432,9 +498,12 @@ theorem callSpec_step (ms0 : List Macro) (hTb : TblOK ms0) (n : Nat) (hcs : ∀ 
         | param j sp =>
           have hj : j = i := by simpa using hmatch
           subst hj
-          obtain ⟨t, ht, hti⟩ := elems_param_tok (toDefF F) F.body j sp hel
-          rw [paramIndex_toDefF] at hti
-          obtain ⟨J, hJ⟩ := (hargs_i t ht j hti).1.final
+          have hju : (j, false) ∈ uses F.params F.body := by
+            have := elems_param_uses { FL with args := ARGS, hide := true } (toDefF F) h4
+              (fun t => by rw [paramIndex_toDefF]; show _ = macroparam FL.params t; rw [hseL.2.2.1])
+              F.body.length F.body (Nat.le_refl _) hHF j sp hel
+            rw [huse] at this; exact this
+          obtain ⟨J, hJ⟩ := (hargs_i j hju).1.final
           refine ⟨J, fun K hK _ => ?_⟩
           have hila : j < args.length := by omega
           have hAi : ((splitTop (seg.length + 1) 0 (seg.map hT) []).getD j []).map Item.tok = (args.getD j []).map (iP ms0) := by
@@ -510,7 +579,7 @@ theorem callSpec_step (ms0 : List Macro) (hTb : TblOK ms0) (n : Nat) (hcs : ∀ 
 
 
 /-- **`expand` on an invocation in the text**, against one step of the reference, for any fuel -/
-theorem callSpec_all (ms0 : List Macro) (hTb : TblOK ms0) : ∀ n, CallSpec ms0 n := by
+theorem callSpec_all (ms0 : List Macro) (hTb : TblOKS ms0) : ∀ n, CallSpec ms0 n := by
   intro n
   induction n using Nat.strongRecOn with
   | _ n ih => exact callSpec_step ms0 hTb n ih
